@@ -49,7 +49,7 @@ using namespace VATA;
 #define B_FINFIX 0
 #endif
 // OP: 0 Union (with translation maps, as the CLI), 1 UnionDisjointStates, 2 Intersection, 3 Reverse,
-//     4 RemoveUnreachableStates, 5 RemoveUselessStates, 6 GetCandidateTree
+//     4 RemoveUnreachableStates, 5 RemoveUselessStates, 6 GetCandidateTree, 7 Reverse + GetCandidateTree
 #ifndef PRUNE
 #define PRUNE 0
 #endif
@@ -150,6 +150,16 @@ extern "C" void harness(void)
       CHECK(!Rs.start[q] || (A.start[q] && ((keep >> q) & 1)), 6);
       for (unsigned x = 0; x < FA::NSYM; ++x) for (unsigned r = 0; r < NA; ++r) CHECK(!Rs.edge[q][x][r] || (A.edge[q][x][r] && ((keep >> q) & 1) && ((keep >> r) & 1)), 5); } }
 #endif
+#elif OP == 7        // ---- Reverse, then GetCandidateTree of the mirror automaton (its start states carry no start symbols)
+  ExplicitFiniteAut rev = a.Reverse();
+  ExplicitFiniteAut res = rev.GetCandidateTree();
+  dec = FA::decode<NR>(res, R, true); CHECK(dec, 1);
+  FA::SymFA<NA> P = FA::mirrorOf(A);
+  bool sub = FA::included<NR, NA>(R, P); bool emptyR = FA::langEmpty(R), emptyA = FA::langEmpty(A);
+#ifdef VS_SELFTEST_1
+  emptyA = emptyA || (A.start[0] && A.edge[0][0][0] && A.fin[0]);   // seeded wrong oracle
+#endif
+  CHECK(sub, 2); CHECK(emptyR == emptyA, 3);
 #elif OP == 6        // ---- GetCandidateTree: L(res) subseteq L(A), empty only if L(A) is empty
   ExplicitFiniteAut res = a.GetCandidateTree();
   dec = FA::decode<NR>(res, R, true); CHECK(dec, 1);
